@@ -172,6 +172,12 @@ func (r *Runner) RunPlan(scn *Scenario, plan *Plan) error {
 			default:
 				ev.Kind = "error"
 				ev.Res = err.Error()
+				if t := err.Error(); len(t) > 2 && t[:2] == "E:" {
+					// an error reply produced for request t[2:]
+					ev.Kind = "val"
+					ev.Val = t[2:]
+					ev.Res = ""
+				}
 			}
 			r.emit(ev)
 			return nil
@@ -210,8 +216,13 @@ func (r *Runner) RunPlan(scn *Scenario, plan *Plan) error {
 			sender = third
 		}
 		var res error
+		asError := r.Replies%3 == 2 // every third reply is an error reply (SendResponseError): it belongs to its request just the same
 		gated.Do(r.Node, sender, func(s *gated.Scripted) error {
-			res = s.SendResponse(dest, pd.ref, Payload{Req: id})
+			if asError {
+				res = s.SendResponseError(dest, pd.ref, errors.New("E:"+id))
+			} else {
+				res = s.SendResponse(dest, pd.ref, Payload{Req: id})
+			}
 			return nil
 		})
 		rs := "ok"
